@@ -147,7 +147,7 @@ func (sfr *SystemFlowRepresentation) generateSystemFlow(
 			},
 		}
 
-		currentConn = sfr.appendSystemProcessorsToFlow(
+		flowConnections, currentConn = sfr.appendSystemProcessorsToFlow(
 			processorsToConnect[1:],
 			flowConnections,
 			currentConn,
@@ -239,7 +239,7 @@ func (sfr *SystemFlowRepresentation) appendSystemProcessorsToFlow(
 	flow []internaltypes.FlowConnRepI,
 	currentConn *streamconfig.ProcessorRef,
 	modifyAt string,
-) *streamconfig.ProcessorRef {
+) ([]internaltypes.FlowConnRepI, *streamconfig.ProcessorRef) {
 	if modifyAt == publictypes.StreamEnd {
 		for _, userConnection := range flow {
 			if !utils.IsInterfaceNil(userConnection.GetTo().GetStream()) &&
@@ -263,9 +263,9 @@ func (sfr *SystemFlowRepresentation) appendSystemProcessorsToFlow(
 				Processor: toConn,
 			},
 		})
-		*currentConn = *toConn
+		currentConn = toConn
 	}
-	return currentConn
+	return flow, currentConn
 }
 
 func (sfr *SystemFlowRepresentation) GetFlowTemplate(
